@@ -275,14 +275,18 @@ func tamper() error {
 // runChild re-executes the test binary in child mode and parses its report. The child is
 // always reaped. A child that did not get as far as entering the chroot is an infrastructure
 // failure (panic), not an observation.
-func runChild(jobPath string) childResult {
+func runChild(jobPath string) childResult { return runChildUnder(nil, jobPath) }
+
+// runChildUnder puts a tracer command line (strace ...) in front of the child.
+func runChildUnder(tracer []string, jobPath string) childResult {
 	exe, err := os.Executable()
 	if err != nil {
 		panic(err)
 	}
 	ctx, cancel := context.WithTimeout(context.Background(), 120*time.Second)
 	defer cancel()
-	cmd := exec.CommandContext(ctx, exe, "-test.run=^$")
+	argv := append(append([]string{}, tracer...), exe, "-test.run=^$")
+	cmd := exec.CommandContext(ctx, argv[0], argv[1:]...)
 	cmd.Env = append(os.Environ(), "VERIF_CHILD=untar", "VERIF_JOB="+jobPath)
 	cmd.Dir = "/"
 	cmd.WaitDelay = 5 * time.Second
